@@ -933,6 +933,9 @@ def run(ctx, rep):
     from props import c10
     from sa.report import RuleProxy
     only_sub = lambda mname: mname.startswith('torchtree.evolution.substitution_model')
+    # P(s) that was returned stays P(s): no p_t hands out a buffer it refreshes in place at the next call (the semigroup law is stated on values held side by side)
+    from props import c11 as _c11b
+    _c11b.check_handed_out_buffers(ctx, RuleProxy(rep, 'C04.J', 'returned::'), only=lambda m: only_sub(m.name))
     nax = c10.check_front_axes(ctx, RuleProxy(rep, 'C04.L', 'batched::'), only=only_sub)
     c10.check_first_sample_rows(ctx, RuleProxy(rep, 'C04.L', 'batched::'), rule='C04.L', only=only_sub)
     if nax < 20:
